@@ -211,7 +211,7 @@ pub fn run(ctx: &Arc<Ctx>) {
             }
         }
     }
-    let ids: Vec<Option<String>> = vec![None, Some("".into()), Some("A".into()), Some("len:16".into()), Some("len:8191".into()), Some("len:37".into()), Some("1234567812345678".into())];
+    let ids: Vec<Option<String>> = vec![None, Some("".into()), Some("A".into()), Some("len:16".into()), Some("len:8191".into()), Some("len:37".into()), Some("1234567812345678".into()), Some("用户甲@例.cn".into()), Some("Zoë".into())];
     let mlens = [0usize, 1, 31, 32, 33, 55, 56, 64, 119, 4096];
     let dks = [(hb(ANNEX_D), hb(ANNEX_K)), (ds.last().unwrap().1.clone(), ks.last().unwrap().1.clone())];
     for id in &ids {
